@@ -9,7 +9,7 @@ LEVEL = "proof"
 ASSUMPTIONS = [
     "A-S3 (service model, assumed): the stored versions form one finite newest-first listing L (modification times non-increasing); a call with a marker returns a page = the next p >= 1 listed versions (p = 0 only when nothing is left), IsTruncated <=> more remain, and the Next*Marker denote the position after the page",
     "list_versions is proved by induction on the number of versions after the marker: the recursive call is replaced by the function's own contract (obligation: the marker strictly advances)",
-    "get(): generator + queue + try/except are outside the executable subset -- covered by the bounded stand-in bounded/c19_get.py (not counted as proved)",
+    "get(): the real get / make_request / wait_for_versions are executed with the generator run eagerly, queue.Queue as a single-threaded FIFO, TransferManager.download as 'the returned future succeeds or fails; on success the buffer holds the bytes of the version named by VersionId', pd.read_csv / to_datetime / astimezone / concat as opaque constructors; versions[::k] = the members whose rank is a multiple of k; the bounded companion bounded/c19_get.py runs the real pandas / queue code",
 ]
 BOUNDED = [{"name": "get_downloads", "script": "c19_get.py", "timeout": 1200}]
 
@@ -52,9 +52,18 @@ class View:
         return V(c)
 
     def pyvc_getitem(self, interp, key):
+        if key == -1 and (len(self.parts) != 1 or self.parts[0][2] is not TRUE):
+            # the last member of a filtered view: a Skolem position that is a member and after which no member follows
+            # (instantiated at the generic positions the proof talks about)
+            c = self.pyvc_len(interp)
+            if interp.ctx.branch(V(c.t <= 0), "empty-list-index"):
+                raise SymRaise(ExcVal("IndexError", ("list index out of range",), ("LookupError",)))
+            last = z3.Int(f"last_member_{id(self)}")
+            interp.ctx.assume(self.member(last))
+            for pt in self.w.points:
+                interp.ctx.assume(z3.Implies(self.member(pt), pt <= last))
+            return Rec(self.w, last)
         if key == -1:
-            if len(self.parts) != 1 or self.parts[0][2] is not TRUE:
-                raise Undecided("last element of a filtered / concatenated view")
             lo, hi, _ = self.parts[0]
             if interp.ctx.branch(V(hi <= lo), "empty-list-index"):
                 raise SymRaise(ExcVal("IndexError", ("list index out of range",), ("LookupError",)))
@@ -214,3 +223,365 @@ def _unit(start_given, end_given):
 for _s in (False, True):
     for _e in (False, True):
         _unit(_s, _e)
+
+
+# ---- get(): sampling, queued downloads, failing futures, stamping -- the REAL body, for any listing and any failures ----
+from pyvc.values import fresh_name  # noqa: E402
+
+
+def loop_over(interp, body, env, w, guard, item, target=None, getter=None):
+    """pointwise loop rule for the position-indexed sequences of this module: the body is executed for ONE generic
+    position w.jg that satisfies `guard` (all its paths), in a scratch path context; everything the body appends to a
+    python list, puts on a queue or yields is recorded as a template guarded by (guard and the path's branch conditions)
+    and becomes ONE symbolic element (Mapped) of that collector.  Sound for bodies whose iterations are independent:
+    the only cross-iteration effects allowed are those appends (checked: no attribute writes, no other outer stores)."""
+    from pyvc.interp import Env, Explorer, InfeasiblePath, PathCtx, _Break, _Continue, _Return
+
+    outer = interp.ctx
+    jg = w.jg
+    base_pc = list(outer.pc) + [z3.And(jg >= 0, jg < w.N, guard)]
+    collectors = []  # (container list, length before)
+    p = env
+    seen = set()
+    while isinstance(p, Env):
+        for v in list(p.vars.values()):
+            for c in ([v] if isinstance(v, list) else [v.items] if isinstance(v, QueueObj) else []):
+                if id(c) not in seen:
+                    seen.add(id(c))
+                    collectors.append(c)
+        if hasattr(p, "yield_sink") and id(p.yield_sink) not in seen:
+            seen.add(id(p.yield_sink))
+            collectors.append(p.yield_sink)
+        p = p.parent
+    # queues reachable through object attributes are not used by the code under contract
+    before = [len(c) for c in collectors]
+    templates = [[] for _ in collectors]
+    ex = Explorer(max_paths=32)
+    ex.notes = outer.notes
+    ex.pending = [[]]
+    while ex.pending:
+        dec = ex.pending.pop()
+        ctx = PathCtx(dec, ex)
+        ctx.pc = list(base_pc)
+        for k, v in outer.__dict__.items():
+            if k.startswith("_"):
+                ctx.__dict__[k] = v
+        interp.ctx = ctx
+        child = Env(env)
+        try:
+            if target is not None:
+                interp.assign(target, item, child)
+            if getter is not None:
+                getter[0] = item
+            interp.exec_block(body, child)
+        except InfeasiblePath:
+            continue
+        except _Continue:
+            pass
+        except (_Break, _Return):
+            interp.ctx = outer
+            raise Undecided("break/return inside a loop over a symbolic sequence")
+        except SymRaise as e:
+            interp.ctx = outer
+            raise Undecided(f"an exception escapes the body of a loop over a symbolic sequence: {e.exc}")
+        finally:
+            interp.ctx = outer
+        bids = {b.get_id() for b in ctx.branches}
+        local = [f for f in ctx.pc[len(base_pc) :] if f.get_id() in bids]
+        for f in ctx.pc[len(base_pc) :]:
+            if f.get_id() not in bids:
+                outer.assume(z3.Implies(z3.And(jg >= 0, jg < w.N, guard), f))
+        outer.obligations.extend(ctx.obligations)
+        for i, c in enumerate(collectors):
+            new = c[before[i] :]
+            del c[before[i] :]
+            if len(new) > 1:
+                raise Undecided("more than one append per iteration and collector")
+            if new:
+                templates[i].append((z3.And(guard, *local), new[0]))
+    for c, tpl in zip(collectors, templates):
+        if tpl:
+            c.append(Mapped(w, tpl))
+
+
+class Mapped:
+    """the elements a pointwise loop produced: for every position j (in listing order) with guard_k(j), item_k(j)"""
+
+    def __init__(self, w, templates):
+        self.w = w
+        self.templates = templates
+
+    def guard(self):
+        return z3.Or(*[g for g, _ in self.templates])
+
+    def pyvc_foreach(self, interp, stmt, env):
+        if stmt.orelse:
+            raise Undecided("for/else")
+        for g, it in self.templates:
+            loop_over(interp, stmt.body, env, self.w, g, it, target=stmt.target)
+
+
+class StrideView:
+    """versions[::step]: the members of the view whose rank among the members is a multiple of step"""
+
+    def __init__(self, view, step):
+        self.view, self.step = view, step
+        self.w = view.w
+
+    def member(self, j):
+        return z3.And(self.view.member(j), self.w.rank(j) % self.step == 0)
+
+    def pyvc_foreach(self, interp, stmt, env):
+        if stmt.orelse:
+            raise Undecided("for/else")
+        loop_over(interp, stmt.body, env, self.w, self.member(self.w.jg), Rec(self.w, self.w.jg), target=stmt.target)
+
+
+def _view_getitem(self, interp, key):
+    if isinstance(key, slice) and key.start is None and key.stop is None and isinstance(key.step, int) and key.step >= 1:
+        return StrideView(self, key.step)
+    return _view_getitem_old(self, interp, key)
+
+
+_view_getitem_old = View.pyvc_getitem
+View.pyvc_getitem = _view_getitem
+
+
+def _rec_getitem(self, interp, key):
+    if key == "VersionId":
+        return V(self.w.vid(self.pos))
+    if key == "Size":
+        return V(self.w.size(self.pos))
+    return _rec_getitem_old(self, interp, key)
+
+
+_rec_getitem_old = Rec.pyvc_getitem
+Rec.pyvc_getitem = _rec_getitem
+
+
+class QueueObj:
+    """queue.Queue() used single-threaded: FIFO"""
+
+    def __init__(self, w):
+        self.w = w
+        self.items = []
+        self.current = [None]
+
+    def pyvc_getattr(self, interp, name):
+        if name == "put":
+            return lambda item, block=True, **kw: self.items.append(item)
+        if name == "get":
+            def get(*a, **k):
+                if self.current[0] is None:
+                    raise Undecided("queue.get outside the drain loop")
+                return self.current[0]
+            return get
+        if name == "task_done":
+            return lambda: None
+        if name == "empty":
+            return lambda: len(self.items) == 0
+        raise Undecided(f"queue.{name}")
+
+    def pyvc_drain(self, interp, stmt, env):
+        """`while not q.empty(): x = q.get(); ...`: every queued item, in order, exactly once"""
+        items, self.items = self.items, []
+        for it in items:
+            if isinstance(it, Mapped):
+                for g, one in it.templates:
+                    loop_over(interp, stmt.body, env, self.w, g, one, getter=self.current)
+            else:
+                self.current[0] = it
+                interp.exec_block(stmt.body, env)
+        self.current[0] = None
+
+
+class DataBuf:
+    def __init__(self):
+        self.content = None
+
+    def pyvc_getattr(self, interp, name):
+        if name == "seek":
+            return lambda *a: 0
+        raise Undecided(f"BytesIO.{name}")
+
+
+class FutureObj:
+    def __init__(self, w, pos):
+        self.w, self.pos = w, pos
+
+    def pyvc_getattr(self, interp, name):
+        if name == "result":
+            def result():
+                if interp.ctx.branch(V(self.w.fail(self.pos)), "download-fails"):
+                    raise SymRaise(ExcVal("Exception", ("download failed",), ("BaseException",)))
+                return None
+            return result
+        raise Undecided(f"future.{name}")
+
+
+class Manager:
+    """TransferManager.download(bucket, key, fileobj, extra_args, subscribers): fills fileobj with the bytes of the version
+    named by extra_args['VersionId'] when the returned future succeeds"""
+
+    def __init__(self, w):
+        self.w = w
+        self.calls = []
+
+    def pyvc_getattr(self, interp, name):
+        if name != "download":
+            raise Undecided(f"manager.{name}")
+
+        def download(bucket, key, fileobj, extra_args=None, subscribers=None):
+            vid = (extra_args or {}).get("VersionId")
+            fileobj.content = vid
+            self.calls.append((vid, subscribers))
+            pos = self.w.jg
+            return FutureObj(self.w, pos)
+
+        return download
+
+
+class CsvFrame:
+    def __init__(self, content):
+        self.content = content
+        self.cols = {}
+
+    def pyvc_setitem(self, interp, key, val):
+        self.cols[key] = val
+
+
+class Stamp:
+    def __init__(self, t, tz=None):
+        self.t, self.tz = t, tz
+
+    def pyvc_getattr(self, interp, name):
+        if name == "astimezone":
+            return lambda tz=None: Stamp(self.t, tz)
+        raise Undecided(f"Timestamp.{name}")
+
+
+class ConcatFrame:
+    def __init__(self, h, parts):
+        self.h, self.parts = h, parts
+        self.copied = []
+
+    def pyvc_getattr(self, interp, name):
+        if name == "columns":
+            return self
+        raise Undecided(f"DataFrame.{name}")
+
+    def pyvc_contains(self, interp, x):  # `name in df.columns`: the downloaded files decide
+        b = z3.Bool(f"files_have_column_{x}")
+        self.h.syms[f"files_have_column_{x}"] = b
+        return V(b)
+
+    def pyvc_getitem(self, interp, key):
+        return ColRef(key)
+
+    def pyvc_setitem(self, interp, key, val):
+        self.copied.append((key, val))
+
+
+class ColRef:
+    def __init__(self, name):
+        self.name = name
+
+    def pyvc_getattr(self, interp, name):
+        if name == "copy":
+            return lambda *a, **k: self
+        raise Undecided(f"Series.{name}")
+
+
+@unit("C19", "get.sampling_downloads_and_stamps", fns=[f"{S3V}.get", f"{S3V}.make_request", f"{S3V}.wait_for_versions"])
+def get_unit(h):
+    """the REAL get / make_request / wait_for_versions (generator run eagerly, queue as FIFO, list_versions under the
+    contract proved above): for any listing, window, failing subset: every sample-th listed version is requested once
+    with its own VersionId, a failing download is skipped without aborting the others, every surviving file is stamped
+    with ITS OWN version's modification time in the configured timezone, in listing order; no version -> None"""
+    w = World(h)
+    h.default_replay = lambda ev: {"target": "verif_replays:get_downloads_replay", "args": [], "check": "result['exc'] is None and result['ok']"}
+    w.jg = z3.Int("generic_position")
+    h.syms["generic_position"] = w.jg
+    for nm, srt in (("rank", z3.IntSort()), ("fail", z3.BoolSort()), ("vid", z3.StringSort()), ("size", z3.IntSort())):
+        f = z3.Function(nm, z3.IntSort(), srt)
+        h.syms[nm] = f
+        setattr(w, nm, f)
+    h.ctx.assume(w.rank(w.jg) >= 0)
+    start, end = h.real("start_date"), h.real("end_date")
+
+    def window(j):
+        return z3.And(w.t(j) >= start.t, w.t(j) <= end.t)
+
+    listed = View(w, [(z3.IntVal(0), w.N, window)])
+    w.points.append(w.jg)
+    h.contracts[f"{S3V}.list_versions"] = lambda interp, self_, path, **kw: listed
+    th = h.interp.theories
+    th["io"] = {"BytesIO": lambda *a: DataBuf()}
+    th["queue"] = {"Queue": lambda *a, **k: QueueObj(w)}
+    th["dateutil"] = {"tz": {"gettz": lambda name=None: ("tz", name)}}
+    pdt = dict(th["pandas"])
+    reads = []
+
+    def read_csv(data, dtype=None, **kw):
+        reads.append((data, dtype))
+        return CsvFrame(data.content)
+
+    concats = []
+
+    def concat(objs, **kw):
+        objs = list(objs)
+        if not objs:
+            raise SymRaise(ExcVal("ValueError", ("No objects to concatenate",)))
+        if not all(isinstance(o, Mapped) for o in objs):
+            raise Undecided("pd.concat of this list")
+        if len(objs) > 1:
+            objs = [Mapped(w, [tp for o in objs for tp in o.templates])]
+        # the list is empty when no position satisfies the guard: pandas raises then
+        some = z3.Bool("some_download_succeeded")
+        h.syms["some_download_succeeded"] = some
+        g = objs[0].guard()
+        h.ctx.assume(z3.Implies(z3.And(w.jg >= 0, w.jg < w.N, g), some))
+        wit = z3.Int("successful_position")
+        h.ctx.assume(z3.Implies(some, z3.And(wit >= 0, wit < w.N, z3.substitute(g, (w.jg, wit)))))
+        if h.interp.ctx.branch(V(z3.Not(some)), "nothing-to-concatenate"):
+            raise SymRaise(ExcVal("ValueError", ("No objects to concatenate",)))
+        cf = ConcatFrame(h, objs[0])
+        concats.append(cf)
+        return cf
+
+    pdt.update(read_csv=read_csv, to_datetime=lambda x, **k: Stamp(x), concat=concat)
+    th["pandas"] = th["pd"] = pdt
+    mgr = Manager(w)
+    self = h.obj(S3V, bucket_name="b", manager=mgr, start_date=start, end_date=end, tz="America/New_York")
+    sample = 2
+    j = w.jg
+    inr = z3.And(j >= 0, j < w.N)
+    kind, res = h.call_method(self, "get", "path", sample=sample)
+    if kind == "raise":
+        # allowed only when every sampled download failed (outside the statement: "as long as at least one succeeds")
+        ok = res.clsname == "ValueError"
+        h.ensures("raises_only_when_no_sampled_download_succeeded", z3.BoolVal(ok) if not ok else z3.Implies(z3.And(inr, window(j), w.rank(j) % sample == 0), w.fail(j)), why=f"raised {res}")
+        return
+    if res is None:
+        h.ensures("no_version_in_the_window.returns_no_data", z3.Implies(inr, z3.Not(window(j))))
+        return
+    h.ensures("returns_the_concatenation", isinstance(res, ConcatFrame) and len(concats) == 1)
+    if not isinstance(res, ConcatFrame):
+        return
+    parts = res.parts
+    sampled = z3.And(window(j), w.rank(j) % sample == 0)
+    h.ensures("one_pointwise_production", len(parts.templates) == 1, why=f"{len(parts.templates)} different productions per position")
+    if len(parts.templates) != 1:
+        return
+    g, frame = parts.templates[0]
+    h.ensures("rows_of_exactly_the_sampled_versions_whose_download_succeeded", z3.Implies(inr, g == z3.And(sampled, z3.Not(w.fail(j)))))
+    h.ensures("each_file_is_the_download_of_its_own_version", isinstance(frame, CsvFrame) and isinstance(frame.content, V) and z3.eq(frame.content.t, w.vid(j)), why=f"the download request names {getattr(frame, 'content', None)!r}")
+    st = frame.cols.get("last_modified")
+    h.ensures("stamped_in_the_configured_timezone", isinstance(st, Stamp) and st.tz == ("tz", "America/New_York"), why=str(getattr(st, "tz", None)))
+    if isinstance(st, Stamp) and isinstance(st.t, V):
+        h.ensures("stamped_with_its_own_modification_time", z3.Implies(z3.And(inr, g), st.t.t == w.t(j)))
+    else:
+        h.ensures("stamped_with_its_own_modification_time", False)
+    c0 = mgr.calls[0] if len(mgr.calls) == 1 else None
+    h.ensures("one_request_per_sampled_version_with_its_own_id_and_size", c0 is not None and isinstance(c0[0], V) and z3.eq(c0[0].t, w.vid(j)) and len(c0[1]) == 1 and z3.eq(c0[1][0].attrs["size"].t, w.size(j)))
+    h.ensures("legacy_column_names_are_copied_not_overwritten", all(k in ("results_dem", "results_gop", "results_turnout") for k, _ in res.copied))
